@@ -16,6 +16,7 @@ import Std.Tactic.BVDecide
 import CC.Gen.SimdX86Src
 import CC.Simd.Impl.X86
 import CC.Simd.Impl.X86Wide
+import CC.Simd.Impl
 namespace CC.Src
 open CC.Simd CC.Simd.Impl CC.Gen
 
@@ -335,6 +336,55 @@ theorem src_x86_skipped_rows : SimdX86Src.skipped_rows =
    ("PartialEq", "impl<S3, S4, NI> PartialEq for u64x2_sse2<S3, S4, NI>"),
    ("Debug", "impl<S3, S4, NI> Debug for u64x2_sse2<S3, S4, NI>"),
    ("Debug", "impl<S3, S4, NI> Debug for u64x4_sse2<S3, S4, NI>")] := rfl
+
+/-! ## which Rust type each `Machine` uses for each associated vector type (`CC.Simd.impl`) -/
+
+/-- the operation record of a Rust type of sse2.rs / soft.rs, by its shape (aliases expanded, flag arguments taken out):
+    `x2<W, G0>` and `x4<W>` are the generic forwarders of soft.rs, `x2<u64x2_sse2, G1>` = `u64x4_sse2` has its own
+    `Words4` / `MultiLane<[u64; 4]>` / `Vec4<u64>` -/
+def recOfShape (s3 s4 : Bool) : String → (τ : Ty) → Option (VOps τ.bits τ.elem)
+  | "u32x4_sse2", .u32x4 => some (X86.u32x4 s3 s4)
+  | "u64x2_sse2", .u64x2 => some (X86.u64x2 s3 s4)
+  | "u128x1_sse2", .u128x1 => some (X86.u128x1 s3)
+  | "x2<u32x4_sse2, G0>", .u32x4x2 => some (Soft.x2 (X86.u32x4 s3 s4))
+  | "x2<u64x2_sse2, G0>", .u64x2x2 => some (Soft.x2 (X86.u64x2 s3 s4))
+  | "x2<u64x2_sse2, G1>", .u64x4 => some (X86.u64x4 s3 s4)
+  | "x2<u128x1_sse2, G0>", .u128x2 => some (Soft.x2 (X86.u128x1 s3))
+  | "x4<u32x4_sse2>", .u32x4x4 => some (Soft.x4 (X86.u32x4 s3 s4))
+  | "x4<u64x2_sse2>", .u64x2x4 => some (Soft.x4 (X86.u64x2 s3 s4))
+  | "x4<u128x1_sse2>", .u128x4 => some (Soft.x4 (X86.u128x1 s3))
+  | "u32x4x2_avx2", .u32x4x2 => some Avx2.u32x4x2
+  | "x2<u32x4x2_avx2, G0>", .u32x4x4 => some Avx2.u32x4x4
+  | _, _ => none
+
+/-- a flag argument of a row: a concrete `Yes*` / `No*`, or the machine's own parameter (looked up in the alias) -/
+def flagOf (margs : List String) : String → Option Bool
+  | "YesS3" => some true | "YesS4" => some true
+  | "NoS3" => some false | "NoS4" => some false
+  | "S3" => if margs.getD 0 "" = "YesS3" then some true else if margs.getD 0 "" = "NoS3" then some false else none
+  | "S4" => if margs.getD 1 "" = "YesS4" then some true else if margs.getD 1 "" = "NoS4" then some false else none
+  | "" => some false
+  | _ => none
+
+def aliasOf : Backend → String
+  | .sse2 => "SSE2" | .ssse3 => "SSSE3" | .sse41 => "SSE41" | .avx => "AVX" | .avx2 => "AVX2" | .generic => ""
+
+/-- what the SOURCE says backend `b` uses for vector type `τ`: alias row → machine → associated-type row → record -/
+def srcImpl (b : Backend) (τ : Ty) : Option (VOps τ.bits τ.elem) :=
+  match SimdX86Src.machine_alias_rows.find? (fun a => a.1 = aliasOf b) with
+  | none => none
+  | some a =>
+    match SimdX86Src.machine_type_rows.find? (fun r => r.1 = a.2.1 ∧ r.2.1 = τ.name) with
+    | none => none
+    | some r =>
+      match flagOf a.2.2 r.2.2.2.1, flagOf a.2.2 r.2.2.2.2 with
+      | some s3, some s4 => recOfShape s3 s4 r.2.2.1 τ
+      | _, _ => none
+
+/-- `impl Machine for SseMachine<S3, S4, NI>` / `for Avx2Machine<NI>` and the aliases `SSE2 … AVX2` of mod.rs, as
+    regenerated from the source, select exactly the records of `CC.Simd.impl` (lean/CC/Simd/Impl.lean) -/
+theorem src_x86_machine_types (b : Backend) (τ : Ty) (h : b ≠ .generic) : srcImpl b τ = some (impl b τ) := by
+  cases b <;> first | exact absurd rfl h | (cases τ <;> rfl)
 
 /-- the list of translated definitions (every method of every non-skipped impl block, per selecting flag combination);
     each of them is a field of `X86WordTie` or `X86MoveTie` -/
